@@ -25,7 +25,8 @@ RULE = ('locks from random seeds x verdict-diverse committed scripts x '
         'encodings, small-order points) / signature / root, random (script, '
         'key) pairs; native vs non-native over adversarial witnesses. '
         'distinct = by (lock, witness); non-trivial = every case except the '
-        'plain default-flag honest key spend')
+        'plain default-flag honest key spend'
+        ' [plus non-point and ff..ff keys, every corrupted pair once more on top of a parked true, the empty committed script, flagged key spends against both lock forms, a process-wide signature extension, the graftap builder pair under permitted flags and one excess bit, non-default limits]')
 ASSUMPTIONS = [
     'pure-Python Ed25519 is the reference for the root identity; libsodium '
     '(called directly) decides signature validity, cross-checked on a sample',
